@@ -148,8 +148,17 @@ func (sc *c10Scn) settle() bool {
 		idle = append(idle, sc.grp)
 	}
 	if !e.vfWaitUnloaded(idle...) {
+		// bounded progress: at logical quiescence a topic without attached sessions is unloaded by its (time-scaled,
+		// 120 ms) idle timer; 20 s later it is still loaded. If the server agrees that no session is attached, no
+		// timer is pending for it: the topic will stay loaded, and reported online, until somebody attaches again.
+		for _, name := range idle {
+			if t := globals.hub.topicGet(name); t != nil && len(t.sessions) == 0 {
+				sc.r.Violation(fmt.Sprintf("idle-topic-never-unloaded:cat%d", int(topicCat(name))), fmt.Sprintf("topic %s has no attached session but was not unloaded within 20 s of logical quiescence (idle timer scaled to 120 ms)", name), map[string]any{"script": sc.log})
+			}
+		}
 		return false
 	}
+	sc.r.Hit("idle_topics_unloaded")
 	// deferred presence timers are scaled to 150ms
 	time.Sleep(20 * time.Millisecond)
 	return e.vfQuiesce()
@@ -545,6 +554,55 @@ func c10Scenario(w *vfWorld, r *vfkit.R, idx int) {
 			r.Hit("settled_points")
 		}
 		sc.steps++
+	}
+	// directed tail: the only sessions attached to the group belong to a member who gives up J: the eviction empties
+	// the group, which must go offline like after a leave
+	{
+		own := sc.users[0]
+		var os, ms *c10Sess
+		for _, s := range own.ss {
+			if !s.closed && !s.c.isClosed() {
+				os = s
+			}
+		}
+		mem := sc.users[1]
+		for _, s := range mem.ss {
+			if !s.closed && !s.c.isClosed() {
+				ms = s
+			}
+		}
+		if os != nil && ms != nil {
+			before := sc.rowsP()
+			for _, u := range sc.users {
+				for _, s := range u.ss {
+					if s.attachedTo(sc.grp) && s != ms {
+						s.c.leave(sc.grp, false)
+					}
+				}
+			}
+			if row, ok := sc.row(sc.grp, mem); ok && !row.ModeGiven.IsJoiner() {
+				os.c.set(sc.grp, map[string]any{"sub": map[string]any{"user": mem.u.uid.UserId(), "mode": "JRWPS"}})
+			}
+			if !ms.attachedTo(sc.grp) {
+				fs := ms.c.sub(sc.grp, nil)
+				sc.logf("user %d (%s) attaches group -> %s", mem.i, ms.c.name, codeStr(fs))
+			}
+			e.vfQuiesce()
+			f := ms.c.set(sc.grp, map[string]any{"sub": map[string]any{"mode": "RWPS"}})
+			sc.logf("user %d, the only user attached to the group, gives up J (bans itself) -> %s", mem.i, codeStr(f))
+			e.vfQuiesce()
+			sc.fold(before)
+			r.Hit("last_session_evicted")
+			if sc.settle() {
+				sc.fold(before)
+				sc.logf("-- settled")
+				sc.checkSettled()
+				sc.fold(sc.rowsP())
+				r.Hit("settled_points")
+			} else {
+				r.Inconclusive("c10: did not settle after the eviction of the last attached session")
+			}
+		}
 	}
 	var shape []string
 	for _, l := range sc.log {
